@@ -302,6 +302,19 @@ func check(st *stats, u *sergen.Universe, s *sergen.Shape, v *sergen.Val, valida
 				}
 			}
 		}
+		// discipline 1 (caller-owned memory): receive loop into one destination, held results, scribbling (disc.go)
+		if len(out.findings) == 0 {
+			tries := 1
+			if !countIt {
+				tries = 4 // shrinking: the wrapper shape draws other follow-up values
+			}
+			for t := 0; t < tries && len(out.findings) == 0; t++ {
+				heldPart(st, u, s, v, b0, validation, rand.New(rand.NewSource(bseed^0x68656c64+int64(t)*7907)), add)
+			}
+		}
+		if countIt && len(out.findings) == 0 {
+			encodeOwnership(st, u, s, v, b, b0, validation, bseed, add)
+		}
 	}
 
 	// ---------------------------------------------------------------- JSON / map form
